@@ -20,7 +20,7 @@
      F50  a ring may only be matched under rotation when its closing vertex equals its first
           vertex in every ordinate (IsClosed looks at X and Y only; the rotation index map never
           reads the closing vertex of the second ring). *)
-From Coq Require Import NArith ZArith QArith List Bool Lia.
+From Coq Require Import NArith ZArith QArith List Bool Lia Permutation.
 From SF Require Import Base.GeomAST Base.Bytes Base.Outcome Model.WKB.
 Import ListNotations.
 Local Close Scope Q_scope.
@@ -113,7 +113,10 @@ Section ExactEq.
 
   (* validPermutation:recurse.  l1 holds the elements level, level+1, ... of the first geometry,
      choices the still unmatched elements of the second one, in the order of the Go slice. *)
-  Fixpoint valid_permutation {A B} (eqm : A -> B -> bool) (l1 : list A) (choices : list B) : bool :=
+  Section Members.
+  Context {A B : Type}.
+  Variable eqm : A -> B -> bool.
+  Fixpoint valid_permutation (l1 : list A) (choices : list B) : bool :=
     match choices with
     | [] => true
     | _ :: _ =>
@@ -124,22 +127,23 @@ Section ExactEq.
                match cs with
                | [] => false
                | c :: cs' =>
-                   (eqm a c && valid_permutation eqm r (swap_remove i choices)) || try (S i) cs'
+                   (eqm a c && valid_permutation r (swap_remove i choices)) || try (S i) cs'
                end) 0%nat choices
         end
     end.
 
   (* structureEq, second half: for i := 0; i < n; i++ { if !eq(i, i) { return false } } *)
-  Fixpoint all2 {A B} (eqm : A -> B -> bool) (l1 : list A) (l2 : list B) : bool :=
+  Fixpoint all2 (l1 : list A) (l2 : list B) : bool :=
     match l1, l2 with
     | [], [] => true
-    | a :: r, b :: s => eqm a b && all2 eqm r s
+    | a :: r, b :: s => eqm a b && all2 r s
     | _, _ => false (* unreachable: the callers compare the lengths first *)
     end.
 
   (* structureEq *)
-  Definition structure_eq {A B} (eqm : A -> B -> bool) (l1 : list A) (l2 : list B) : bool :=
-    if io then valid_permutation eqm l1 l2 else all2 eqm l1 l2.
+  Definition structure_eq (l1 : list A) (l2 : list B) : bool :=
+    if io then valid_permutation l1 l2 else all2 l1 l2.
+  End Members.
 
   (* type_polygon.go:ExteriorRing / InteriorRingN *)
   Definition ext_ring (p : polyT F) : lineT F :=
@@ -157,7 +161,7 @@ Section ExactEq.
     && structure_eq line_eq (int_rings p1) (int_rings p2).
 
   (* geometriesEq and the Multi* / collection comparisons *)
-  Fixpoint geom_eq (g h : geomT F) : bool :=
+  Fixpoint geom_eq (g h : geomT F) {struct g} : bool :=
     match g, h with
     | GPoint p, GPoint q => point_eq p q
     | GLine l, GLine k => line_eq l k
@@ -199,10 +203,13 @@ Definition xy_exact {F} (feq : F -> F -> bool) (a b : vtx F) : bool :=
 Local Open Scope N_scope.
 
 Definition sign_bit : N := 9223372036854775808.      (* 2^63: the pattern of -0 *)
+(* math.IsNaN with shifts and masks (same function as WKB.is_nan, lemma is_nan_fast_eq) *)
+Definition is_nan_fast (b : N) : bool :=
+  (N.land (N.shiftr b 52) 2047 =? 2047) && negb (N.land b 4503599627370495 =? 0).
 Definition is_zero_bits (b : N) : bool := (b =? 0) || (b =? sign_bit).
 (* Go's == on two float64 given by their bit patterns: NaN differs from everything, -0 == +0 *)
 Definition feq_bits (a b : N) : bool :=
-  negb (is_nan a) && negb (is_nan b) && ((a =? b) || (is_zero_bits a && is_zero_bits b)).
+  if a =? b then negb (is_nan_fast a) else is_zero_bits a && is_zero_bits b.
 (* the normal form used by the property: -0 becomes +0 *)
 Definition nz_bits (b : N) : N := if b =? sign_bit then 0 else b.
 
@@ -211,10 +218,10 @@ Inductive ext := ENaN | EInf (neg : bool) | EFin (q : Q).
 Definition pow2Q (k : Z) : Q :=
   if (0 <=? k)%Z then inject_Z (2 ^ k) else Qmake 1 (Z.to_pos (2 ^ (- k))).
 Definition ext_of_bits (b : N) : ext :=
-  let neg := (b / sign_bit) mod 2 =? 1 in
-  let e := (b / 4503599627370496) mod 2048 in
-  let m := b mod 4503599627370496 in
-  if e =? 2047 then (if m =? 0 then EInf neg else ENaN)
+  let neg := N.testbit b 63 in
+  let e := N.land (N.shiftr b 52) 2047 in
+  let m := N.land b 4503599627370495 in
+  if e =? 2047 then (if m =? 0 then EInf neg else ENaN)   (* ENaN iff is_nan_fast b *)
   else
     let mag : Q :=
       if e =? 0 then (inject_Z (Z.of_N m) * pow2Q (-1074))%Q
@@ -241,13 +248,14 @@ Definition len_sq_gt (dx dy : ext) (t : Q) : bool :=
    (0 when the option is absent).  Exact arithmetic: agrees with the float64 code wherever the
    subtraction, the squares and their sum are exact or far from the threshold. *)
 Definition xy_eq_bits (tol : N) (a b : vtx N) : bool :=
-  match ext_of_bits tol with
-  | EFin t =>
-      if Qeq_bool t 0 then xy_exact feq_bits a b    (* toleranceSq == 0: a.XY != b.XY *)
-      else negb (len_sq_gt (ext_sub (ext_of_bits (vx a)) (ext_of_bits (vx b)))
-                           (ext_sub (ext_of_bits (vy a)) (ext_of_bits (vy b))) t)
-  | _ => true   (* toleranceSq is +Inf or NaN: nothing is greater *)
-  end.
+  if is_zero_bits tol then xy_exact feq_bits a b     (* toleranceSq == 0: a.XY != b.XY *)
+  else
+    match ext_of_bits tol with
+    | EFin t =>
+        negb (len_sq_gt (ext_sub (ext_of_bits (vx a)) (ext_of_bits (vx b)))
+                        (ext_sub (ext_of_bits (vy a)) (ext_of_bits (vy b))) t)
+    | _ => true   (* toleranceSq is +Inf or NaN: nothing is greater *)
+    end.
 
 (* ExactEquals(g, h, opts...) on bit patterns *)
 Definition exact_equals (simple : lineT N -> bool) (tol : N) (io : bool) (g h : geom) : bool :=
@@ -310,7 +318,7 @@ Arguments ring_nf {F} _ _. Arguments poly_nf {F} _ _. Arguments geom_nf {F} _ _.
 Definition cts_agree {F} (g : geomT F) : bool := consistent (fun _ : F => true) g.
 
 Definition nzg (g : geom) : geom := norm_geom nz_bits 0 g.
-Definition nan_free (g : geom) : bool := geom_nf (fun b => negb (is_nan b)) g.
+Definition nan_free (g : geom) : bool := geom_nf (fun b => negb (is_nan_fast b)) g.
 
 Fixpoint bytes_eqb (a b : list N) : bool :=
   match a, b with
@@ -321,3 +329,98 @@ Fixpoint bytes_eqb (a b : list N) : bool :=
 (* the executable statement of the first sentence of the property: the WKB encodings are equal
    once -0 is written as +0 *)
 Definition wkb_equal (g h : geom) : bool := bytes_eqb (enc (nzg g)) (enc (nzg h)).
+
+(* ------------------------------------------------------------------ tolerance statement *)
+Section TolSpec.
+  Variable F : Type.
+  (* the control points of a geometry in storage order, each with the coordinate type of the
+     sequence (or point) that owns it *)
+  Definition point_cvs (p : pointT F) : list (ctype * vtx F) :=
+    match point_c p with None => [] | Some v => [(point_ct p, v)] end.
+  Definition line_cvs (l : lineT F) : list (ctype * vtx F) := map (pair (line_ct l)) (line_vs l).
+  Definition poly_cvs (p : polyT F) : list (ctype * vtx F) := flat_map line_cvs (poly_rings p).
+  Fixpoint geom_cvs (g : geomT F) : list (ctype * vtx F) :=
+    match g with
+    | GPoint p => point_cvs p
+    | GLine l => line_cvs l
+    | GPoly p => poly_cvs p
+    | GMPoint _ ps => flat_map point_cvs ps
+    | GMLine _ ls => flat_map line_cvs ls
+    | GMPoly _ ps => flat_map poly_cvs ps
+    | GColl _ gs => flat_map geom_cvs gs
+    end.
+  (* same type, coordinate types, member counts, emptiness and vertex counts at every node:
+     the comparison with every pair of coordinates accepted *)
+  Definition same_structure (g h : geomT F) : bool :=
+    geom_eq (fun _ _ => true) (fun _ _ => true) (fun _ => false) false g h.
+End TolSpec.
+Arguments point_cvs {F} _. Arguments line_cvs {F} _. Arguments poly_cvs {F} _.
+Arguments geom_cvs {F} _. Arguments same_structure {F} _ _.
+
+(* "relates vertex lists that correspond within distance e" *)
+Definition tol_spec (tol : N) (g h : geom) : bool :=
+  same_structure g h
+  && all2 (fun a b => coord_eq feq_bits (xy_eq_bits tol) (fst a) (snd a) (fst b) (snd b))
+          (geom_cvs g) (geom_cvs h).
+
+(* ------------------------------------------------------------------ the IgnoreOrder statement *)
+(* "... additionally identifies geometries that differ only by the permutation of collection
+   members, of MultiPoint/MultiLineString/MultiPolygon members and of holes, by the direction of a
+   LineString, and by the start vertex or direction of a ring - and nothing else."
+   OrderEquiv is the least relation containing structural equality (ordinates compared with ==)
+   and these moves, closed under symmetry, transitivity and application inside members. *)
+Section OrderSpec.
+  Local Close Scope N_scope.
+  Variable F : Type.
+  Variable feq : F -> F -> bool.
+  Variable simple : lineT F -> bool.
+
+  Definition veq (ct : ctype) (a b : vtx F) : Prop := coord_eq feq (xy_exact feq) ct a ct b = true.
+  Definition plain_eq (g h : geomT F) : Prop := geom_eq feq (xy_exact feq) simple false g h = true.
+  (* a ring: closed and simple (IsRing), the closing vertex repeating the first in every ordinate *)
+  Definition ring (l : lineT F) : Prop :=
+    is_ring feq simple l = true /\ ends_eq feq (xy_exact feq) l = true.
+  (* start a closed sequence one vertex later: drop the closing vertex, move the first vertex to
+     the end, close again *)
+  Definition rot1 (vs : list (vtx F)) : list (vtx F) :=
+    match removelast vs with
+    | [] => vs
+    | v0 :: t => match t with [] => [v0; v0] | v1 :: _ => t ++ [v0; v1] end
+    end.
+  Definition rotk (k : nat) (vs : list (vtx F)) : list (vtx F) := Nat.iter k rot1 vs.
+
+  Inductive OrderEquiv : geomT F -> geomT F -> Prop :=
+  | OE_plain g h : plain_eq g h -> OrderEquiv g h
+  | OE_sym g h : OrderEquiv g h -> OrderEquiv h g
+  | OE_trans g h k : OrderEquiv g h -> OrderEquiv h k -> OrderEquiv g k
+  (* direction of a LineString *)
+  | OE_reverse ct vs : OrderEquiv (GLine (MkLine ct vs)) (GLine (MkLine ct (rev vs)))
+  (* start vertex and direction of a ring: ws is vs started k vertices later, possibly traversed
+     backwards (ordinates up to ==) *)
+  | OE_ring ct vs ws k (flip : bool) :
+      ring (MkLine ct vs) -> ring (MkLine ct ws) ->
+      Forall2 (veq ct) (if flip then rev ws else ws) (rotk k vs) ->
+      OrderEquiv (GLine (MkLine ct vs)) (GLine (MkLine ct ws))
+  (* member order *)
+  | OE_perm_mpoint ct ps qs : Permutation ps qs -> OrderEquiv (GMPoint ct ps) (GMPoint ct qs)
+  | OE_perm_mline ct ls ks : Permutation ls ks -> OrderEquiv (GMLine ct ls) (GMLine ct ks)
+  | OE_perm_mpoly ct ps qs : Permutation ps qs -> OrderEquiv (GMPoly ct ps) (GMPoly ct qs)
+  | OE_perm_coll ct gs hs : Permutation gs hs -> OrderEquiv (GColl ct gs) (GColl ct hs)
+  (* order of the holes; the exterior ring stays first *)
+  | OE_perm_holes ct e hs ks :
+      Permutation hs ks -> OrderEquiv (GPoly (MkPoly ct (e :: hs))) (GPoly (MkPoly ct (e :: ks)))
+  (* the moves apply inside members, at every level *)
+  | OE_in_poly ct rs ss :
+      Forall2 (fun l k => OrderEquiv (GLine l) (GLine k)) rs ss ->
+      OrderEquiv (GPoly (MkPoly ct rs)) (GPoly (MkPoly ct ss))
+  | OE_in_mline ct ls ks :
+      Forall2 (fun l k => OrderEquiv (GLine l) (GLine k)) ls ks ->
+      OrderEquiv (GMLine ct ls) (GMLine ct ks)
+  | OE_in_mpoly ct ps qs :
+      Forall2 (fun p q => OrderEquiv (GPoly p) (GPoly q)) ps qs ->
+      OrderEquiv (GMPoly ct ps) (GMPoly ct qs)
+  | OE_in_coll ct gs hs :
+      Forall2 OrderEquiv gs hs -> OrderEquiv (GColl ct gs) (GColl ct hs).
+End OrderSpec.
+Arguments veq {F} _ _ _ _. Arguments plain_eq {F} _ _ _ _. Arguments ring {F} _ _ _.
+Arguments rot1 {F} _. Arguments rotk {F} _ _. Arguments OrderEquiv {F} _ _ _ _.
